@@ -538,6 +538,19 @@ Error:
         }
         struct video_s* video = self->video + i;
         camera_stop(video->source.camera);
+        // Wind down whatever was started for this stream, or acquire_stop and
+        // acquire_abort would wait for it for good. A running source thread
+        // stops itself (and then its filter and sink) once it sees the flag;
+        // refusing writes releases it if it is blocked on a full queue.
+        video->source.is_stopping = 1;
+        channel_accept_writes(&video->sink.in, 0);
+        if (!video->source.is_running) {
+            // The source thread was never launched (e.g. the camera failed to
+            // start after the sink and filter threads had been created):
+            // nobody else will tell those two to stop.
+            video->filter.is_stopping = 1;
+            video->sink.is_stopping = 1;
+        }
     }
     self->state = DeviceState_AwaitingConfiguration;
     return AcquireStatus_Error;
